@@ -342,7 +342,7 @@ pub fn dump(rng: &mut Rng, count: u64, emit: Emit) {
             Err(_) => String::from("PANIC"),
         };
         let esc: String = sexp_escape(&result).replace("\u{2423}\u{2423}", "\u{2423}\u{2423}");
-        write!(req, " (cycle {}) (timeout {}) (showbanks {}) (impltext {}) (stmts {}))", cycle, timeout, if test_mode { 0 } else { 1 }, esc, sexp).unwrap();
+        write!(req, " (cycle {}) (timeout {}) (showbanks {}) (impltext {}) {})", cycle, timeout, if test_mode { 0 } else { 1 }, esc, crate::progrun::stmts_fields(&sexp)).unwrap();
         emit(req, result);
     }
 }
@@ -507,8 +507,8 @@ pub fn table(rng: &mut Rng, count: u64, emit: Emit) {
         let mut memf = String::from("(mem");
         for (a, b) in &g.mem { write!(memf, " ({} {})", a, b).unwrap(); }
         memf.push(')');
-        emit(format!("(table {} {} (cycles {}) (grouped {}) {} (text {}) (stmts {}))", crate::progrun::flags_sexp(), crate::progrun::cls_sexp(&text),
-                     g.cycles, if grouped { 1 } else { 0 }, memf, sexp_escape(&text), sexp), result);
+        emit(format!("(table {} {} (cycles {}) (grouped {}) {} (text {}) {})", crate::progrun::flags_sexp(), crate::progrun::cls_sexp(&text),
+                     g.cycles, if grouped { 1 } else { 0 }, memf, sexp_escape(&text), crate::progrun::stmts_fields(&sexp)), result);
     }
 }
 
@@ -967,6 +967,14 @@ pub fn anytext_input(rng: &mut Rng) -> (String, String) {
             }
         }
     }
+    // a byte order mark in front of the text (as some editors write): it is not blank space for the lexer, so the file is
+    // rejected at line 1, column 1 - and nothing may be dropped from the text without the line table knowing
+    if rng.chance(1, 25) {
+        let mut b: Vec<u8> = vec![0xef, 0xbb, 0xbf];
+        b.extend_from_slice(&bytes);
+        bytes = b;
+        how.push_str("+bom");
+    }
     let text = String::from_utf8_lossy(&bytes).into_owned();
     (text, how)
 }
@@ -1255,7 +1263,7 @@ pub fn messages(rng: &mut Rng, count: u64, emit: Emit) {
         let mut memf = String::from("(mem");
         for (a, b) in &g.mem { write!(memf, " ({} {})", a, b).unwrap(); }
         memf.push(')');
-        emit(format!("(messages {} {} (cycles {}) (assigns {}) {} (text {}) (stmts {}))", crate::progrun::flags_sexp(), crate::progrun::cls_sexp(&text),
-                     g.cycles, if assigns { 1 } else { 0 }, memf, sexp_escape(&text), sexp), result);
+        emit(format!("(messages {} {} (cycles {}) (assigns {}) {} (text {}) {})", crate::progrun::flags_sexp(), crate::progrun::cls_sexp(&text),
+                     g.cycles, if assigns { 1 } else { 0 }, memf, sexp_escape(&text), crate::progrun::stmts_fields(&sexp)), result);
     }
 }
